@@ -156,6 +156,8 @@ def _class_from_py(c):
         return [('prim', prim[c])]
     if c in (list, tuple, dict, set):
         return [('kind', {list: K_LIST, tuple: K_TUPLE, dict: K_DICT, set: K_SET}[c])]
+    if c is type:
+        return [('isclass', None)]
     if isinstance(c, type):
         return [('cls', front.cls_qual(c))]
     raise Unsupported('isinstance class %r' % (c,))
@@ -183,6 +185,8 @@ def b_isinstance(ex, st, args, kwargs, node):
                 conds.append(shape(st, t, payload))
         elif kind == 'kind':
             conds.append(And(is_ref(t), KIND(va(t)) == payload))
+        elif kind == 'isclass':
+            conds.append(is_cls(t))
         else:
             conds.append(And(is_ref(t), KIND(va(t)) == K_INST, cls_in(CLS(va(t)), payload)))
     return [(st, B(Or(*conds)))], []
@@ -513,6 +517,20 @@ def m_get(ex, st, recv, args, kwargs, node):
     st.assume(Implies(st.DK[a][k.term], shape(st, v, ty.v)))
     r = z3.If(st.DK[a][k.term], v, d.term)
     return [(st, SV(r, Ty.join(ty.v, d.ty) if not isinstance(ty.v, Ty.TAny) else Ty.ANY))], []
+
+
+@method('dict', 'values')
+def m_values(ex, st, recv, args, kwargs, node):
+    if recv.has_py and isinstance(recv.py, dict):
+        return [(st, ex.lift_py(list(recv.py.values()), st))], []
+    raise Unsupported('values() of a symbolic dict (line %d)' % node.lineno)
+
+
+@method('dict', 'items')
+def m_items(ex, st, recv, args, kwargs, node):
+    if recv.has_py and isinstance(recv.py, dict):
+        return [(st, ex.lift_py([(k, v) for k, v in recv.py.items()], st))], []
+    raise Unsupported('items() of a symbolic dict (line %d)' % node.lineno)
 
 
 @method('dict', 'keys')
